@@ -8,6 +8,7 @@ import (
 	"bytes"
 	"sort"
 
+	"github.com/dominant-strategies/go-quai/common"
 	"github.com/dominant-strategies/go-quai/core/types"
 )
 
@@ -42,4 +43,10 @@ func verifSortQiTxs(txs []*types.TxWithMinerFee) {
 	sort.Slice(txs, func(i, j int) bool {
 		return bytes.Compare(txs[i].Tx().Hash().Bytes(), txs[j].Tx().Hash().Bytes()) < 0
 	})
+}
+
+// VerifSetLockupContract changes the lockup contract the worker names in the data of the headers it builds
+// (normally fixed at start-up from the miner configuration).
+func (sl *Slice) VerifSetLockupContract(addr *common.Address) {
+	sl.miner.worker.lockupContractAddress = addr
 }
